@@ -325,6 +325,78 @@ class BoundarySpace(Subspace):
         return res
 
 
+class NarrowCodeSpace(Subspace):
+    """S6: GroupBy-level boundary family for narrow group codes (int8 codes of small categoricals and
+    boolean keys): two interleaved groups of L rows, windows around 127/128, every row compared."""
+    shard = 1
+
+    def __init__(self, tier, seed=0):
+        self.name = "S6-narrow-group-codes"
+        q = tier == "quick"
+        Ls = (129, 300) if q else (127, 128, 129, 255, 256, 257, 300)
+        Ws = (2, 128) if q else (2, 127, 128, 129, 200)
+        self.cases = [(L, w, kk) for L in Ls for w in Ws for kk in ("cat8", "bool") if w <= L]
+
+    def size(self):
+        return len(self.cases)
+
+    def warm_indices(self, n):
+        return (0,)
+
+    def case(self, i):
+        L, w, kk = self.cases[i]
+        return dict(L=L, window=w, keykind=kk)
+
+    def run(self, case):
+        from groupby_lib import GroupBy
+
+        res = Result()
+        res.nontrivial = True
+        L, w, kk = case["L"], case["window"], case["keykind"]
+        n = 2 * L
+        codes = (np.arange(n) % 2).astype(np.int64)
+        keys = pd.Categorical.from_codes(codes.astype("i1"), categories=["a", "b", "c"]) if kk == "cat8" \
+            else codes.astype(bool)
+        vals = ((np.arange(n) * 7919) % 1013).astype("f8")
+        vals[::17] = np.nan
+        for op in ("sum", "mean", "max", "min", "shift", "diff"):
+            for mp in ((1, w) if op not in ("shift", "diff") else (None,)):
+                res.execs += 1
+                tag = f"rolling_{op} L={L} window={w} min_periods={mp} {kk} keys"
+                try:
+                    g = GroupBy(keys)
+                    with contextlib.redirect_stdout(io.StringIO()):
+                        if op == "shift":
+                            out = g.shift(vals, window=w)
+                        elif op == "diff":
+                            out = g.diff(vals, window=w)
+                        else:
+                            out = getattr(g, "rolling_" + op)(vals, window=w, min_periods=mp)
+                    got_all = np.asarray(out, dtype="f8")
+                except Exception as e:  # noqa
+                    res.fail("total", f"{tag}: raised {type(e).__name__}: {str(e)[:100]}")
+                    continue
+                bad = None
+                for gi in (0, 1):
+                    sub, got = vals[gi::2], got_all[gi::2]
+                    if op == "shift":
+                        want = pd.Series(sub).shift(w).to_numpy()
+                    elif op == "diff":
+                        want = (pd.Series(sub) - pd.Series(sub).shift(w)).to_numpy()
+                    else:
+                        want = getattr(pd.Series(sub).rolling(w, min_periods=mp), op)().to_numpy()
+                    for p in range(len(sub)):
+                        a, b = got[p], want[p]
+                        if (np.isnan(a) != np.isnan(b)) or (not np.isnan(a) and abs(a - b) > 1e-9 * max(1, abs(b))):
+                            bad = f"group {gi} row {p}: expected {b} got {a}"
+                            break
+                    if bad:
+                        break
+                if bad:
+                    res.fail("boundary", f"{tag}: {bad}")
+        return res
+
+
 def subspaces(tier, seed):
     q = tier == "quick"
     sp = []
@@ -343,4 +415,5 @@ def subspaces(tier, seed):
     sp.append(Wd(f"S4-f8-chunkwise-n1to{h}", 2, 1, h, rep="chunkwise", seed=seed))
     sp.append(Wd(f"S4-M8[ns]-chunkwise-n1to3", 2, 1, 3, vdtype="M8[ns]", rep="chunkwise", seed=seed))
     sp.append(BoundarySpace(tier, seed))
+    sp.append(NarrowCodeSpace(tier, seed))
     return sp
